@@ -578,6 +578,135 @@ func (p *pkg) deadlineBefore(fn string, seen map[string]bool) bool {
 
 func leanBool(name string, v bool) string { return fmt.Sprintf("def %s : Bool := %v\n", name, v) }
 
+// ardopParseFacts renders the `switch msg.cmd` of ardop.parseCtrlMsg as (kind, names) clauses, in source
+// order. The kind is read off the clause body: 0 no value, 1 bool, 2 State, 3 string, 4 list split on
+// space, 5 list split on comma, 6 int. An unrecognised body is fatal (the model no longer mirrors the code).
+func ardopParseFacts(p *pkg) string {
+	fd := p.funcDecl("parseCtrlMsg")
+	if fd == nil {
+		fatal("ardop.parseCtrlMsg not found")
+	}
+	var sw *ast.SwitchStmt
+	ast.Inspect(fd.Body, func(n ast.Node) bool {
+		if s, ok := n.(*ast.SwitchStmt); ok && sw == nil && exprStr(s.Tag) == "msg.cmd" {
+			sw = s
+		}
+		return true
+	})
+	if sw == nil {
+		fatal("ardop.parseCtrlMsg: switch msg.cmd not found")
+	}
+	strConst := func(name string) string {
+		c, ok := p.consts[name]
+		if !ok {
+			fatal("ardop: constant %s not found", name)
+		}
+		bl, ok := c.(*ast.BasicLit)
+		if !ok || bl.Kind != token.STRING {
+			fatal("ardop: constant %s is not a string literal", name)
+		}
+		v, err := strconv.Unquote(bl.Value)
+		if err != nil {
+			fatal("ardop: %s: %v", name, err)
+		}
+		return v
+	}
+	var b strings.Builder
+	b.WriteString("def ardopParseCases : List (Nat × List (List UInt8)) := [")
+	first := true
+	for _, st := range sw.Body.List {
+		cc := st.(*ast.CaseClause)
+		if cc.List == nil {
+			continue // default
+		}
+		var body strings.Builder
+		for _, s := range cc.Body {
+			ast.Inspect(s, func(n ast.Node) bool {
+				switch x := n.(type) {
+				case *ast.BasicLit:
+					body.WriteString(x.Value + " ")
+				case *ast.Ident:
+					body.WriteString(x.Name + " ")
+				}
+				return true
+			})
+		}
+		txt := body.String()
+		kind := -1
+		switch {
+		case len(cc.Body) == 0:
+			kind = 0
+		case strings.Contains(txt, `"true"`) && strings.Contains(txt, "ToLower"):
+			kind = 1
+		case strings.Contains(txt, "stateMap") && strings.Contains(txt, "ToUpper"):
+			kind = 2
+		case strings.Contains(txt, "parseList") && strings.Contains(txt, `" "`):
+			kind = 4
+		case strings.Contains(txt, "parseList") && strings.Contains(txt, `","`):
+			kind = 5
+		case strings.Contains(txt, "Atoi"):
+			kind = 6
+		case strings.TrimSpace(txt) == "msg value parts 1":
+			kind = 3
+		default:
+			fatal("ardop.parseCtrlMsg: unrecognised case body %q", txt)
+		}
+		if !first {
+			b.WriteString(",")
+		}
+		first = false
+		fmt.Fprintf(&b, "\n  (%d, [", kind)
+		for i, e := range cc.List {
+			id, ok := e.(*ast.Ident)
+			if !ok {
+				fatal("ardop.parseCtrlMsg: case expression is not a constant name")
+			}
+			if i > 0 {
+				b.WriteString(", ")
+			}
+			b.WriteString(leanBytes(strConst(id.Name)))
+		}
+		b.WriteString("])")
+	}
+	b.WriteString("]\n")
+	// stateMap
+	sm, ok := p.vars["stateMap"].(*ast.CompositeLit)
+	if !ok {
+		fatal("ardop.stateMap not found")
+	}
+	b.WriteString("def ardopStateMap : List (List UInt8 × Nat) := [")
+	for i, e := range sm.Elts {
+		kv := e.(*ast.KeyValueExpr)
+		k, err := strconv.Unquote(kv.Key.(*ast.BasicLit).Value)
+		if err != nil {
+			fatal("ardop.stateMap key: %v", err)
+		}
+		if i > 0 {
+			b.WriteString(", ")
+		}
+		fmt.Fprintf(&b, "(%s, %d)", leanBytes(k), p.eval(kv.Value, 0))
+	}
+	b.WriteString("]\n")
+	for _, c := range []string{"cmdPTT", "cmdDisconnected", "cmdBuffer", "cmdNewState", "cmdBusy", "cmdCRCFault", "cmdDisconnect"} {
+		fmt.Fprintf(&b, "def ardop_%s : List UInt8 := %s\n", c, leanBytes(strConst(c)))
+	}
+	fmt.Fprintf(&b, "def ardopStateDisconnected : Nat := %d\n", p.constVal("Disconnected"))
+	return b.String()
+}
+
+func leanBytes(s string) string {
+	var b strings.Builder
+	b.WriteString("[")
+	for i := 0; i < len(s); i++ {
+		if i > 0 {
+			b.WriteString(", ")
+		}
+		fmt.Fprintf(&b, "%d", s[i])
+	}
+	b.WriteString("]")
+	return b.String()
+}
+
 func main() {
 	if len(os.Args) != 3 {
 		fatal("usage: extract <repo> <lean Gen dir>")
@@ -606,6 +735,7 @@ func main() {
 	}
 	b.WriteString(leanList("winlinkSecureSalt", fb.table("winlinkSecureSalt")))
 	fmt.Fprintf(&b, "def ardopPolynomial : Nat := %d\n", ar.constVal("polynomial"))
+	b.WriteString(ardopParseFacts(ar))
 	b.WriteString("\nend Wl2k.Gen\n")
 	if err := os.WriteFile(filepath.Join(out, "Tables.lean"), []byte(b.String()), 0o644); err != nil {
 		fatal("%v", err)
